@@ -106,29 +106,37 @@ Shape(kind, keys, f, x, cas) ==
 Bump(cnt, entries) == [i \in 1..Len(cnt) |-> cnt[i] + Cardinality({j \in 1..Len(entries) : entries[j][1] = i})]
 FailAll(q, out) == [i \in 1..Len(q) |-> <<q[i].id, out>>]
 
-Issue(kind, keys, val, f, x, cas) ==
-    LET id  == nextid
-        msg == Validate(kind, keys, val)
-        now_fails == phase = "lost" \/ msg # ""
-        \* the "not connected" test comes first, then validation; nothing is written in either case
+\* the call fails at once: the Deferred it returns has already failed, nothing is written, nothing is queued
+\* (the "not connected" test comes first, then validation)
+IssueRejected(kind, keys, val, f, x, cas) ==
+    LET msg == Validate(kind, keys, val)
         out == IF phase = "lost" THEN Err("RuntimeError", "not connected") ELSE Err("ClientError", msg)
     IN
     /\ Shape(kind, keys, f, x, cas)
+    /\ phase = "lost" \/ msg # ""
     /\ nextid' = nextid + 1
     /\ expect' = Append(expect, Unset)
-    /\ IF now_fails
-         THEN /\ count' = Append(count, 1)
-              /\ last' = [e |-> "issue", wrote |-> "", fired |-> <<<<id, out>>>>, close |-> 0]
-              /\ UNCHANGED <<deadline, queue, srvq, accepted>>
-         ELSE \* ODDITY: phase "closing" (after a timeout, before connectionLost) still accepts, writes and re-arms
-              /\ count' = Append(count, 0)
-              /\ queue' = Append(queue, [id |-> id, kind |-> kind, multi |-> Multi(kind), rows |-> InitRows(kind, keys), curk |-> ""])
-              /\ srvq' = Append(srvq, [id |-> id, kind |-> kind, keys |-> {keys[i].s : i \in 1..Len(keys)},
-                                     rows0 |-> InitRows(kind, keys)])
-              /\ accepted' = Append(accepted, id)
-              /\ deadline' = IF queue = <<>> THEN now + cfg.P ELSE deadline    \* armed by the first of a burst only
-              /\ last' = [e |-> "issue", wrote |-> Wire(kind, keys, val, f, x, cas), fired |-> <<>>, close |-> 0]
+    /\ count' = Append(count, 1)
+    /\ last' = [e |-> "issue", wrote |-> "", fired |-> <<<<nextid, out>>>>, close |-> 0]
+    /\ UNCHANGED <<cfg, now, deadline, phase, queue, srvq, stream, got, accepted, byresp, bad>>
+
+\* the command is written and joins the queue
+\* ODDITY: phase "closing" (after a timeout, before connectionLost) still accepts, writes and re-arms the timeout
+IssueAccepted(kind, keys, val, f, x, cas) ==
+    /\ Shape(kind, keys, f, x, cas)
+    /\ phase # "lost" /\ Validate(kind, keys, val) = ""
+    /\ nextid' = nextid + 1
+    /\ expect' = Append(expect, Unset)
+    /\ count' = Append(count, 0)
+    /\ queue' = Append(queue, [id |-> nextid, kind |-> kind, multi |-> Multi(kind), rows |-> InitRows(kind, keys), curk |-> ""])
+    /\ srvq' = Append(srvq, [id |-> nextid, kind |-> kind, keys |-> {keys[i].s : i \in 1..Len(keys)},
+                            rows0 |-> InitRows(kind, keys)])
+    /\ accepted' = Append(accepted, nextid)
+    /\ deadline' = IF queue = <<>> THEN now + cfg.P ELSE deadline    \* armed by the first of a burst only
+    /\ last' = [e |-> "issue", wrote |-> Wire(kind, keys, val, f, x, cas), fired |-> <<>>, close |-> 0]
     /\ UNCHANGED <<cfg, now, phase, stream, got, byresp, bad>>
+
+Issue(kind, keys, val, f, x, cas) == IssueRejected(kind, keys, val, f, x, cas) \/ IssueAccepted(kind, keys, val, f, x, cas)
 
 \* ---- the server answers the oldest unanswered command ---------------------------------------
 \* item = [k |-> kind, s |-> key / stat name, f |-> flags / number, c |-> cas, v |-> payload / text, m |-> declared length]
@@ -143,8 +151,10 @@ ItemText(it) ==
       [] OTHER            -> it.k \o CRLF
 RECURSIVE ItemsText(_)
 ItemsText(items) == IF items = <<>> THEN "" ELSE ItemText(Head(items)) \o ItemsText(Tail(items))
+\* items in flight carry their byte length n (computed once, when the server sends them)
+Sized(it) == [k |-> it.k, s |-> it.s, f |-> it.f, c |-> it.c, v |-> it.v, m |-> it.m, n |-> Len(ItemText(it))]
 RECURSIVE SumLen(_)
-SumLen(items) == IF items = <<>> THEN 0 ELSE Len(ItemText(Head(items))) + SumLen(Tail(items))
+SumLen(items) == IF items = <<>> THEN 0 ELSE Head(items).n + SumLen(Tail(items))
 Remaining == SumLen(stream) - got
 
 ErrKinds == {"ERROR", "CLIENT_ERROR", "SERVER_ERROR"}
@@ -193,7 +203,7 @@ Expected(c, rows, items) ==
 Respond(items) ==
     /\ phase = "open" /\ srvq # <<>>
     /\ WellFormed(Head(srvq), items)
-    /\ stream' = stream \o items
+    /\ stream' = stream \o [i \in 1..Len(items) |-> Sized(items[i])]
     /\ srvq' = Tail(srvq)
     /\ expect' = [expect EXCEPT ![Head(srvq).id] = Expected(Head(srvq), Head(srvq).rows0, items)]
     /\ last' = [e |-> "respond", wrote |-> "", fired |-> <<>>, close |-> 0, text |-> ItemsText(items)]
@@ -228,7 +238,7 @@ Apply(q, it) ==
 RECURSIVE Consume(_, _, _, _, _, _, _)
 Consume(st, avail, base, q, fired, line, act) ==
     IF st = <<>> THEN [st |-> st, got |-> 0, q |-> q, fired |-> fired, line |-> line, act |-> act]
-    ELSE LET it == Head(st)  n == Len(ItemText(it)) IN
+    ELSE LET it == Head(st)  n == it.n IN
          IF avail >= n
            THEN LET r == Apply(q, it) IN
                 Consume(Tail(st), avail - n, 0, r.q, fired \o r.f, line \/ it.k # "DATA", TRUE)
@@ -249,19 +259,25 @@ Deliver(d) ==
     /\ UNCHANGED <<cfg, now, phase, srvq, nextid, accepted, expect>>
 
 \* ---- time ------------------------------------------------------------------------------------
-Advance(d) ==
+Tick(d) ==
     /\ d \in Nat /\ now' = now + d
-    /\ IF deadline # None /\ deadline <= now + d
-         THEN \* timeoutConnection: every outstanding command fails, the transport is asked to close
-              /\ deadline' = None /\ queue' = <<>>
-              /\ count' = Bump(count, FailAll(queue, TimedOut))
-              \* ODDITY: a timer left armed by connectionLost fires here too and calls loseConnection() again
-              /\ phase' = IF phase = "lost" THEN "lost" ELSE "closing"
-              /\ srvq' = <<>> /\ stream' = <<>> /\ got' = 0      \* a closing transport delivers nothing more
-              /\ last' = [e |-> "advance", wrote |-> "", fired |-> FailAll(queue, TimedOut), close |-> 1]
-         ELSE /\ last' = [e |-> "advance", wrote |-> "", fired |-> <<>>, close |-> 0]
-              /\ UNCHANGED <<deadline, queue, count, phase, srvq, stream, got>>
+    /\ ~(deadline # None /\ deadline <= now + d)
+    /\ last' = [e |-> "advance", wrote |-> "", fired |-> <<>>, close |-> 0]
+    /\ UNCHANGED <<cfg, deadline, phase, queue, srvq, stream, got, nextid, count, accepted, byresp, expect, bad>>
+
+\* timeoutConnection: every outstanding command fails, the transport is asked to close
+Expire(d) ==
+    /\ d \in Nat /\ now' = now + d
+    /\ deadline # None /\ deadline <= now + d
+    /\ deadline' = None /\ queue' = <<>>
+    /\ count' = Bump(count, FailAll(queue, TimedOut))
+    \* ODDITY: a timer left armed by connectionLost fires here too and calls loseConnection() again
+    /\ phase' = IF phase = "lost" THEN "lost" ELSE "closing"
+    /\ srvq' = <<>> /\ stream' = <<>> /\ got' = 0      \* a closing transport delivers nothing more
+    /\ last' = [e |-> "advance", wrote |-> "", fired |-> FailAll(queue, TimedOut), close |-> 1]
     /\ UNCHANGED <<cfg, nextid, accepted, byresp, expect, bad>>
+
+Advance(d) == Tick(d) \/ Expire(d)
 
 \* ---- connectionLost(reason) -------------------------------------------------------------------
 Lose(cls, txt) ==
